@@ -9,14 +9,21 @@ from vf.ref import iban as R
 _S = None
 
 
+_LIB_LOCK = __import__("threading").Lock()
+
+
 def lib():
     global _S  # noqa: PLW0603
     if _S is None:
-        env.use_repo()
-        import schwifty  # noqa: PLC0415
-        import schwifty.exceptions  # noqa: PLC0415
+        # one thread at a time: use_repo() edits sys.path, and a second harness thread importing in between
+        # would pick up the installed copy instead of the tree under test
+        with _LIB_LOCK:
+            if _S is None:
+                env.use_repo()
+                import schwifty  # noqa: PLC0415
+                import schwifty.exceptions  # noqa: PLC0415
 
-        _S = schwifty
+                _S = schwifty
     return _S
 
 
